@@ -5,5 +5,6 @@
 package diff
 
 //@ func Difference(nx, ny, f) (es)
-//@   trusted Myers-style edit script between two index ranges (summarised: only its frame is used)
+//@   trusted Myers-style edit script between two index ranges (vendored from go-cmp; summarised): the script consumes the two ranges exactly, so no edit reaches past the end of either
 //@   assigns nothing
+//@   ensures forall k int {es[k]} :: 0 <= k && k < len(es) ==> (consumesX(es[k]) ==> esX(es, k) < nx) && (consumesY(es[k]) ==> esY(es, k) < ny) && (consumesX(es[k]) || consumesY(es[k]))
